@@ -18,6 +18,10 @@
 (*    EndEmptyRaises - END with an empty residue buffer raises             *)
 (*    GluedKeepsWater- drop_water keys on the first whitespace token, so   *)
 (*                     "HETATM10001" (5-digit serial) is not recognised    *)
+(*    EmptyModelContinues - the second MODEL record ends reading only if   *)
+(*                     the residue buffer is not empty: after an empty     *)
+(*                     first model the second one is read (minus its last  *)
+(*                     residue)                                            *)
 (***************************************************************************)
 EXTENDS Naturals, Integers, Sequences, FiniteSets, TLC, Json, SequencesExt
 
@@ -25,6 +29,7 @@ CONSTANTS MaxLen,          \* longest file explored
           BlankStops,      \* TRUE: code as written before the fix
           EndEmptyRaises,  \* TRUE: code as written before the fix
           GluedKeepsWater, \* TRUE: drop_water misses HETATM records whose serial is glued to the record name
+          EmptyModelContinues, \* TRUE: code before the fix - a MODEL record met with an empty residue buffer never ends reading
           DropWaterChoices,\* subset of BOOLEAN: values of --drop-water explored
           Alphabet,        \* the abstract lines files are made of
           Emit             \* TRUE: print every finished file with the model's result (replay leg)
@@ -114,8 +119,8 @@ Step(g, rec, nch) ==
      ELSE Flush(g)
   ELSE IF ln.k = "model" THEN
      LET g1 == [g EXCEPT !.nm = g.nm + 1] IN
-     IF g1.cur = <<>> THEN g1
-     ELSE IF g1.nm > 1 THEN [Flush(g1) EXCEPT !.brk = TRUE]
+     IF EmptyModelContinues /\ g1.cur = <<>> THEN g1
+     ELSE IF g1.nm > 1 THEN [(IF g1.cur = <<>> THEN g1 ELSE Flush(g1)) EXCEPT !.brk = TRUE]
      ELSE g1
   ELSE IF ln.k = "ter" THEN [g EXCEPT !.cnt = g.cnt + 1]
   ELSE g
